@@ -461,6 +461,53 @@ async def _(mpc):
     return r == (g ^ 7)
 
 
+@open_case('C26', 'C26-sectype-cache-ignores-sec-param', 'SecInt(l) created under a small sec_param is reused after sec_param is restored',
+           expected=True)
+async def _(mpc):
+    from mpyc import sectypes
+    k = mpc.options.sec_param
+    try:
+        mpc.options.sec_param = 1
+        mpc.SecInt(17)
+        mpc.options.sec_param = 30
+        T = mpc.SecInt(17)
+        return T.field.order.bit_length() >= 17 + 30 + 2
+    finally:
+        mpc.options.sec_param = k
+        sectypes._SecInt.cache_clear()
+
+
+@open_case('C34', 'C34-regression-accuracy', 'linear_regression / correlation on x = 0..49, y = 2x + 1 (default SecFxp)', expected=True)
+async def _(mpc):
+    from mpyc import statistics as st
+    secfxp = mpc.SecFxp()
+    x = [secfxp(float(i)) for i in range(50)]
+    y = [secfxp(float(2 * i + 1)) for i in range(50)]
+    slope, intercept = st.linear_regression(x, y)
+    r = st.correlation(x, y)
+    s_, i_, r_ = float(await mpc.output(slope)), float(await mpc.output(intercept)), float(await mpc.output(r))
+    return abs(s_ - 2.0) < 0.01 and abs(i_ - 1.0) < 0.25 and abs(r_ - 1.0) < 0.01
+
+
+@open_case('C34', 'C34-median-wide-range', 'median of secure integers whose range exceeds 2^(l-1), 60 + 30 calls', expected=[[2], [0]],
+           max_steps=2_500_000)
+async def _(mpc):
+    from mpyc import statistics as st
+    s16, s32 = mpc.SecInt(16), mpc.SecInt(32)
+    d16, d32 = [17000, 17000, -17000, 1, 2, 3, -5], [0, -2 ** 31, 0]
+    r16 = {int(await mpc.output(st.median([s16(v) for v in d16]))) for _ in range(60)}
+    r32 = {int(await mpc.output(st.median([s32(v) for v in d32]))) for _ in range(30)}
+    return [sorted(r16), sorted(r32)]
+
+
+@open_case('C34', 'C34-stdev-constant-data', 'stdev / pstdev of constant fixed-point data is 0', expected=[0.0, 0.0])
+async def _(mpc):
+    from mpyc import statistics as st
+    secfxp = mpc.SecFxp()
+    x = [secfxp(2.5)] * 4
+    return [float(await mpc.output(st.stdev(x))), float(await mpc.output(st.pstdev(x)))]
+
+
 # ---------------------------------------------------------------------------------------------------- driver
 def _close(a, b, tol):
     if isinstance(a, (list, tuple)) and isinstance(b, (list, tuple)):
